@@ -501,7 +501,49 @@ def r_constraints():
     lib.write_gen("ConstraintTables", "\n".join(out))
 
 
+def input_tables():
+    """how the definition sets of a document are found, and how the input type is inferred (AST / class attributes)"""
+    lib.ensure_repo_on_path()
+    import ast
+    import inspect
+    import textwrap
+    import datamodel_code_generator as d
+    from datamodel_code_generator.parser.jsonschema import JsonSchemaParser
+    from datamodel_code_generator.parser.openapi import OpenAPIParser
+    raw = ast.parse(textwrap.dedent(inspect.getsource(OpenAPIParser.parse_raw)))
+    keys = []
+    for node in ast.walk(raw):
+        # specification.get("components", {}).get("schemas", {})
+        if (isinstance(node, ast.AnnAssign) and ast.unparse(node.target) == "schemas" and node.value is not None) or \
+                (isinstance(node, ast.Assign) and ast.unparse(node.targets[0]) == "schemas"):
+            for c in ast.walk(node.value):
+                if isinstance(c, ast.Call) and isinstance(c.func, ast.Attribute) and c.func.attr == "get" and c.args and isinstance(c.args[0], ast.Constant):
+                    keys.append(c.args[0].value)
+    keys = list(reversed(keys))
+    inf = ast.parse(textwrap.dedent(inspect.getsource(d.infer_input_type)))
+    order = [ast.unparse(n.test) + " -> " + ast.unparse(n.body[0].value) for n in ast.walk(inf) if isinstance(n, ast.If)]
+    final = [ast.unparse(n.value) for n in inf.body[0].body if isinstance(n, ast.Return)]
+    sch = ast.parse(textwrap.dedent(inspect.getsource(d.is_schema)))
+    schema_keys = sorted({c.value for c in ast.walk(sch) if isinstance(c, ast.Constant) and isinstance(c.value, str) and not c.value.startswith("http")})
+    return {"js_paths": list(JsonSchemaParser.SCHEMA_PATHS), "oa_paths": list(OpenAPIParser.SCHEMA_PATHS), "oa_raw_keys": keys,
+            "infer": order + final, "is_schema_keys": schema_keys}
+
+
+def r_input():
+    t = input_tables()
+    S = coq_string
+    L = lambda xs: "[" + "; ".join(S(x) for x in xs) + "]"
+    out = ["(* GENERATED on every run from parser/jsonschema.py, parser/openapi.py and __init__.py (class attributes / AST). *)\nFrom Coq Require Import List String.\nImport ListNotations.\nOpen Scope string_scope.\n".replace("\\n", "\n")]
+    out.append(f"Definition js_schema_paths : list string := {L(t['js_paths'])}.\n".replace("\\n", "\n"))
+    out.append(f"Definition oa_schema_paths : list string := {L(t['oa_paths'])}.\n".replace("\\n", "\n"))
+    out.append(f"Definition oa_raw_keys : list string := {L(t['oa_raw_keys'])}.\n".replace("\\n", "\n"))
+    out.append(f"Definition infer_steps : list string := {L(t['infer'])}.\n".replace("\\n", "\n"))
+    out.append(f"Definition is_schema_keys : list string := {L(t['is_schema_keys'])}.\n".replace("\\n", "\n"))
+    lib.write_gen("InputTables", "\n".join(out).replace("\\n", "\n"))
+
+
 REFLECTORS = {
+    "InputTables": r_input,
     "ConstraintTables": r_constraints,
     "DeterminismTables": r_determinism,
     "FieldTable": r_field_table,
